@@ -58,7 +58,10 @@ type StackCase struct {
 	// TypeNamed: the description also defines schemes that are named like their type ("basic", "apiKey", "oauth2") and
 	// that no operation requires; the application registers an always-accepting authenticator for each. They decide
 	// nothing: a required scheme without authenticator of its own stays unsatisfiable. (r6)
-	TypeNamed bool  `json:"type_named,omitempty"`
+	TypeNamed bool `json:"type_named,omitempty"`
+	// DebugMode: the package variable middleware.Debug is on while the API's handler is built and served (verbose
+	// logging to a muted logger): what is admitted does not depend on it. (r9)
+	DebugMode bool  `json:"debug_mode,omitempty"`
 	Reqs      []Req `json:"reqs"`
 }
 
@@ -545,6 +548,11 @@ func checkServed(c StackCase, rig *stackRig, typed bool) *kit.Violation {
 
 // CheckStack: untyped API behind Context.APIHandler.
 func CheckStack(c StackCase) *kit.Violation {
+	if c.DebugMode {
+		saved := middleware.Debug
+		middleware.Debug = true
+		defer func() { middleware.Debug = saved }()
+	}
 	rig, err := newUntypedRig(c)
 	if err != nil {
 		panic("harness: generated spec does not load: " + err.Error())
@@ -555,6 +563,11 @@ func CheckStack(c StackCase) *kit.Violation {
 // CheckTyped: generated-server style handler, then Context.Authorize on the looked-up route with every
 // combination of explicit scheme orders (the route's alternatives are copied, only their Schemes are permuted).
 func CheckTyped(c StackCase) *kit.Violation {
+	if c.DebugMode {
+		saved := middleware.Debug
+		middleware.Debug = true
+		defer func() { middleware.Debug = saved }()
+	}
 	rig, err := newTypedRig(c)
 	if err != nil {
 		panic("harness: generated spec does not load: " + err.Error())
